@@ -1,10 +1,82 @@
 """C05 -- ArcSwap's accounting and caps under every thread interleaving."""
+import os, re, sys
+sys.path.insert(0, os.path.dirname(os.path.dirname(os.path.abspath(__file__))))
+from translate_lib import read, fn_body, Fail, HEADER, coq_bool
+
+
+# ------------------------------------------------------------ C05: translator
+def _norm(s):
+    s = re.sub(r"//[^\n]*", "", s)
+    return re.sub(r"\s+", " ", s)
+
+
+def gen_arcswap():
+    """The literals and the statement order the C05 proofs depend on, re-read from the source:
+    lock discipline of make_move, the two tests guarding a move, the per-thread share of the
+    headroom, the weight merge, the pass-exit test, the chunking."""
+    rel = "src/algorithms/arc_swap.rs"
+    body = fn_body(read(rel), "arc_swap")
+    if body is None:
+        raise Fail("fn arc_swap not found")
+    b = _norm(body)
+    ws = fn_body(read("src/work_share.rs"), "work_share")
+    if ws is None:
+        raise Fail("fn work_share not found")
+    w = _norm(ws)
+
+    def pos(pat, text=b):
+        m = re.search(pat, text)
+        return m.start() if m else -1
+
+    order = [
+        pos(r"locks\[vertex\] \.compare_exchange\(false, true,"),
+        pos(r"let _lock_guard = defer\("),
+        pos(r"\.any\(\|\(neighbor, _edge_weight\)\| locks\[neighbor\]\.load\("),
+        pos(r"let initial_part = partition\[vertex\]\.load\("),
+        pos(r"if gain <= 0 \{"),
+        pos(r"if max_part_weights\[target_part\] < target_part_weight \{"),
+        pos(r"partition\[vertex\]\.store\(target_part,"),
+        pos(r"break vertex;"),
+        pos(r"for \(neighbor, _edge_weight\) in adjacency\.neighbors\(moved_vertex\)"),
+    ]
+    facts = [
+        ("lock_then_check_then_store_then_release", all(x >= 0 for x in order) and order == sorted(order)),
+        ("guard_not_dropped_early", "drop(" not in b and "mem::forget" not in b),
+        ("unlock_stores_false", pos(r"move \|\| locks\[vertex\]\.store\(false,") >= 0),
+        ("locked_vertex_is_skipped", pos(r"if locked \{ metadata\.locked_count \+= 1; continue; \}") >= 0),
+        ("raced_vertex_is_skipped", pos(r"if raced \{ metadata\.race_count \+= 1; continue; \}") >= 0),
+        ("target_weight_is_local_plus_vertex", pos(r"let target_part_weight = weight \+ part_weights\[target_part\];") >= 0),
+        ("move_updates_local_weights", pos(r"part_weights\[initial_part\] -= weight; part_weights\[target_part\] \+= weight;") >= 0),
+        ("gain_is_recorded", pos(r"metadata\.move_count \+= 1; metadata\.edge_cut_gain \+= gain;") >= 0),
+        ("headroom_divided_by_thread_count",
+         pos(r"\*max_pw = \*pw \+ W::from_f64\(\(max_part_weight - \*pw\)\.to_f64\(\)\.unwrap\(\) / thread_count as f64\) \.unwrap\(\);") >= 0),
+        ("merge_subtracts_tc_minus_1_copies", pos(r"\*pw = pw_sum - W::from_usize\(thread_count - 1\)\.unwrap\(\) \* \*pw;") >= 0),
+        ("pass_loop_exits_on_zero_gain", pos(r"if pass_metadata\.edge_cut_gain == 0 \{ break; \}") >= 0),
+        ("chunks_from_work_share",
+         pos(r"work_share\(partition\.len\(\), rayon::current_num_threads\(\)\)") >= 0
+         and pos(r"\.par_chunks\(items_per_thread\) \.enumerate\(\)") >= 0),
+        ("work_share_formulas",
+         pos(r"let max_threads = usize::min\(total_work, max_threads\);", w) >= 0
+         and pos(r"let work_per_thread = \(total_work \+ max_threads - 1\) / max_threads;", w) >= 0
+         and pos(r"let thread_count = \(total_work \+ work_per_thread - 1\) / work_per_thread;", w) >= 0
+         and pos(r"\(work_per_thread, thread_count\)", w) >= 0),
+    ]
+    out = HEADER.format(src=rel + ", src/work_share.rs")
+    out += "From Coq Require Import List Bool.\nImport ListNotations.\n"
+    for name, ok in facts:
+        out += "Definition arcswap_%s : bool := %s.\n" % (name, coq_bool(ok))
+    out += "Definition arcswap_source_shape : list bool :=\n  [%s].\n" % ";\n   ".join("arcswap_" + n for n, _ in facts)
+    return out
+
+
+GENERATORS = {"ArcSwapGen.v": gen_arcswap}
+
 
 PROP = dict(
     bin="c05",
     run_targets=["Run/RunC05.vo"],
     prop_targets=["Properties/C05.vo"],
-    cases=dict(quick=1200, thorough=8000),
+    cases=dict(quick=1500, thorough=10000),
     level="proof",
     rule="each case = one run of ArcSwap under the controlled scheduler: graph family (path, cycle, clique, star, random x3 "
          "densities, multigraph with parallel edges/unsorted rows, 2-row grid, signed/zero edge weights with self loops) x "
